@@ -24,7 +24,8 @@ From Coq Require Import List Arith Bool Permutation.
 Import ListNotations.
 From TF Require Import Base.Hier Base.Ty Sub.Match Sub.SubSpec.
 From TF Require Import Graph.AddExpr Graph.AddExprSpec Graph.AddExprProofs.
-From TF Require Import Graph.Workflow Graph.WorkflowSpec Graph.WorkflowProofs Graph.SourceTypes.
+From TF Require Import Graph.Workflow Graph.WorkflowSpec Graph.WorkflowProofs Graph.WorkflowInline.
+From TF Require Import Graph.SourceTypes.
 
 (* For every well-formed workflow (any number of applications, any sharing of
    sources and of intermediate results, any listing order, passthrough on or off)
@@ -70,6 +71,29 @@ Theorem C12_plugged : forall add_from add_from_r,
     rho res tg = Some (r_output res).
 Proof. exact add_workflow_plugged. Qed.
 Print Assumptions C12_plugged.
+
+(* Passthrough on, every tool uses all its inputs: the workflow graph is the graph of
+   the single expression [inline] in which every tool input is replaced by the
+   expression of the tool that produced it -- add_workflow on the workflow and add_expr
+   on that expression both produce exactly the triples [flow] prescribes for an
+   application tree ([shape], C08) of that one expression; the node of the final
+   application is the root of the tree.  The two trees differ in the names of their
+   positions, and the workflow's tree gives the copies of a shared intermediate result
+   the same names (one node per resource) where add_expr, which does not memoise
+   applications, gives each copy names of its own. *)
+Theorem C12_inline : forall add_from add_from_r,
+  add_from_ok add_from -> add_from_ok add_from_r ->
+  forall wf, wf_okb wf = true -> inl_okb wf = true ->
+  exists res tg e U sm0 L st',
+    add_workflow add_from add_from_r false true wf = Some res /\
+    target wf = Some tg /\ inline wf (wf_fuel wf) tg = Some e /\
+    shape sm0 [] e U /\ lnode U = r_output res /\
+    (forall t, vis t -> (In t (r_tr res) <-> In t (flow U))) /\
+    add_expr add_from false e None g_empty = Some (lnode L, st') /\
+    shape (srcmap (g_memo st')) [] e L /\
+    (forall t, vis t -> (In t (g_tr st') <-> In t (flow L))).
+Proof. exact add_workflow_vs_add_expr. Qed.
+Print Assumptions C12_inline.
 
 (* add_expr on an expression some of whose sub-expressions are already in the memo
    expr_nodes (which is how add_workflow shares the node of a resource among its
@@ -135,8 +159,18 @@ Definition ex_a4 : tapp :=
   mkApp 4 (TApp 32 (TApp 31 (TOp 30 3) (TIn 0) false) (TIn 1) false) [3; 2] [33; 34].
 Definition ex_wf : wflow := mkWf [1; 0] [ex_a4; ex_a2; ex_a3].
 
-Example C12_ex_wf : wf_okb ex_wf = true /\ target ex_wf = Some 4.
-Proof. split; reflexivity. Qed.
+Example C12_ex_wf : wf_okb ex_wf = true /\ inl_okb ex_wf = true /\ target ex_wf = Some 4.
+Proof. repeat split; reflexivity. Qed.
+
+(* its inlined expression:  k (h (g (f s0)) s0) (f s0), the two copies of f s0 being one object *)
+Example C12_ex_inline :
+  inline ex_wf (wf_fuel ex_wf) 4 =
+  Some (EApp 32 (EApp 31 (EOp 30 3)
+                   (EApp 24 (EApp 23 (EOp 20 1)
+                               (EApp 22 (EOp 21 2) (EApp 11 (EOp 10 0) (ESrc 0) false) false) true)
+                         (ESrc 0) false) false)
+             (EApp 11 (EOp 10 0) (ESrc 0) false) false).
+Proof. reflexivity. Qed.
 
 (* passthrough on: five resources, five different nodes; node of 2 reused by 3 and 4 *)
 Example C12_ex_run :
